@@ -161,6 +161,18 @@ where
             last_object_stream: Mutex::new(None),
         })
     }
+    /// A stream written to this document must carry its data: one that was read from the file
+    /// (a page's untouched content stream, say) still points there, and the serializer cannot
+    /// follow that.  The (decrypted, still encoded) bytes are taken over.
+    fn own_stream_data(&self, p: Primitive) -> Result<Primitive> {
+        match p {
+            Primitive::Stream(crate::primitive::PdfStream { info, inner: crate::primitive::StreamInner::InFile { id, file_range } }) => {
+                let data = self.decode(id, file_range, &[])?;
+                Ok(Primitive::Stream(crate::primitive::PdfStream { info, inner: crate::primitive::StreamInner::Pending { data } }))
+            }
+            p => Ok(p)
+        }
+    }
     fn decode(&self, id: PlainRef, range: Range<usize>, filters: &[StreamFilter]) -> Result<Arc<[u8]>> {
         let data = self.backend.read(range)?;
 
@@ -501,6 +513,7 @@ where
         let id = self.refs.len() as u64;
         self.refs.push(XRef::Promised);
         let primitive = obj.to_primitive(self)?;
+        let primitive = self.own_stream_data(primitive)?;
         self.changes.insert(id, (primitive, 0));
         let rc = Shared::new(obj);
         let r = PlainRef { id, gen: 0 };
@@ -518,6 +531,7 @@ where
             XRef::Invalid => return Err(PdfError::NullRef { obj_nr: old.id })
         };
         let primitive = obj.to_primitive(self)?;
+        let primitive = self.own_stream_data(primitive)?;
         // the new value replaces whatever was written before (entries of an earlier dictionary
         // that the new one does not have must not survive)
         self.changes.insert(old.id, (primitive, r.gen));
